@@ -19,6 +19,7 @@ func GetIndividuals(document *gedcom.Document, placesMap map[string]*place) map[
 // becomes "-1", "-2", ...) would depend on an individual that is hidden.
 func getIndividuals(document *gedcom.Document, placesMap map[string]*place, visibility LivingVisibility) map[string]*gedcom.IndividualNode {
 	individualMap := map[string]*gedcom.IndividualNode{}
+	reserved := sourceKeys(document)
 
 	for _, individual := range document.Individuals() {
 		if visibility != LivingVisibilityShow && individual.IsLiving() {
@@ -28,7 +29,7 @@ func getIndividuals(document *gedcom.Document, placesMap map[string]*place, visi
 		name := individual.Name().String()
 
 		key := getUniqueKey(individualMap, alnumOrDashRegexp.
-			ReplaceAllString(strings.ToLower(name), "-"), placesMap)
+			ReplaceAllString(strings.ToLower(name), "-"), placesMap, reserved)
 
 		individualMap[key] = individual
 	}
